@@ -36,6 +36,10 @@ def _run_case(spec):
     # quantities and the other way round)
     rng = np.random.default_rng([int(spec['member']['seed']), spec['order'], 6])
     keys = [keys[i] for i in rng.permutation(len(keys))]
+    # intermediates cached beforehand switch the cache-state arms on the way to
+    # the constraints (e.g. s_Ricci_down3 from a cached s_Riemann_down3); they
+    # are requested, not judged here (C04/C05 judge them)
+    pre = [[], ['s_Riemann_down3'], ['st_Riemann_down4'], ['s_RicciS', 'Tdown4']][int(rng.integers(4))]
     for g in grids:
         ex, rel = c04.evaluate(spec, g, [])
         x, y, z = harness.coords(g['n'], g['lo'], g['d'])
@@ -47,7 +51,7 @@ def _run_case(spec):
         exd['Momentumup3'] = np.zeros((3,) + shp)
         exd['Momentumdown3'] = np.zeros((3,) + shp)
         exd['_ex'] = ex
-        vals.append((exd, engine.eval_keys(rel, keys)))
+        vals.append((exd, engine.eval_keys(rel, pre + keys)))
         del rel
     ex = vals[1][0]['_ex']
     kap = 8 * np.pi
@@ -64,7 +68,8 @@ def _run_case(spec):
     engine.compare(res, spec, vals, keys,
                    tags=[c04.mclass(spec['member']), spec['mode'], spec['order'],
                          'vac' if spec['vacuum'] else 'T',
-                         'L0' if lam == 0 else ('L+' if lam > 0 else 'L-')],
+                         'L0' if lam == 0 else ('L+' if lam > 0 else 'L-'),
+                         'pre:' + '+'.join(pre)],
                    scale_hints=hints, by_class=False)
     return res
 
